@@ -116,7 +116,8 @@ def nested(R, snap, rnd):
     n = 250 if R.tier == "quick" else 2500
     cases = []
     while len(cases) < n:
-        c = G.gen_case(rnd, malformed_p=0.0)
+        # current-protocol layouts only: older loaders ignore some keys of the layout the generator writes
+        c = G.gen_case(rnd, malformed_p=0.0, protocols=(snap["protocol"], snap["protocol"] + 1))
         c["tspec"], c["show"] = "none", "all"
         cases.append(c)
     recs, bad, _ = IO.run_batch(R, cases, aspects=("gut", "audit"), tag="c11n")
@@ -129,15 +130,23 @@ def nested(R, snap, rnd):
             continue
         gut = set(r["gut"][3:].split(","))
         proto = c["schema"].get("protocol")
-        seen_ids = set()
-        for path, st in G.all_paths(c["schema"]):
-            if not (isinstance(st, dict) and isinstance(st.get("__loader__"), str)):
+
+        def idkey(sid):
+            # Python's dict sees 1, 1.0 and True as one key
+            if isinstance(sid, (bool, int, float)):
+                return ("num", float(sid))
+            return ("str", sid) if isinstance(sid, str) else ("other", json.dumps(sid))
+        states = [(path, st) for path, st in G.all_paths(c["schema"]) if isinstance(st, dict) and isinstance(st.get("__loader__"), str)]
+        by_id = {}
+        for path, st in states:
+            if st.get("__id__"):
+                by_id.setdefault(idkey(st["__id__"]), []).append(st)
+        # a state whose id occurs more than once may be the memoised node (its own JSON is then never read, nor is
+        # anything below it): such states and everything under them are outside what this oracle can judge
+        repeated = [path for path, st in states if st.get("__id__") and len(by_id[idkey(st["__id__"])]) > 1]
+        for path, st in states:
+            if any(path[: len(rp)] == rp and (len(path) > len(rp) or True) for rp in repeated):
                 continue
-            sid = st.get("__id__")
-            key = json.dumps(sid)
-            if sid and key in seen_ids:
-                continue        # a repeated id is the memoised node, its own text is never read
-            seen_ids.add(key)
             loader = st["__loader__"]
             tag = reg.get((loader, proto if type(proto) is int else cur)) or reg.get((loader, cur))
             if tag is None or loader in NAME_IGNORED:
